@@ -371,6 +371,24 @@ Fixpoint drive (f : mon -> op -> sobs -> bool * mon) (m : mon) (os : list op) (i
 Definition simple (g : mon -> op -> sobs -> bool) : mon -> op -> sobs -> bool * mon :=
   fun m o i => (g m o i, mon_next m o i).
 
+(** Stalled-terminal cases: the step in which a notice is observed is skewed, but once the terminal has
+    been drained and every attached stream has returned, the operator must have been told, in total:
+    one 'connected' and one 'closed' notice per attached stream, and one 'gone' notice per shell (maximal
+    period with something attached) - none may be dropped because the terminal was slow. *)
+Definition total_notes (cl : ncls) (obs : list sobs) : nat := list_sum (map (count_note cl) obs).
+Definition shells_gone (obs : list sobs) : nat :=
+  snd (fold_left (fun (st : list N * nat) o =>
+                    let l1 := fst st ++ o_att o in
+                    let l2 := remove_all (o_ret o) l1 in
+                    (l2, match l1, l2 with _ :: _, [] => S (snd st) | _, _ => snd st end)) obs ([], 0%nat)).
+Definition notes_complete (obs : list sobs) : bool :=
+  let atts := flat_map o_att obs in
+  let rets := flat_map o_ret obs in
+  if forallb (fun a => memb a rets) atts then
+    (total_notes NConnected obs =? length atts)%nat && (total_notes NClosed obs =? length atts)%nat &&
+    (total_notes NGone obs =? shells_gone obs)%nat
+  else true.
+
 Definition monitor_at (which : N) (c : case) : N :=
   let ds := descs (ops c) in
   let f := match which with
@@ -385,6 +403,7 @@ Definition monitor_at (which : N) (c : case) : N :=
   let k := if (which =? 4) && negb (corr_on c) then 0 else drive f mon0 (ops c) (impl c) 0 in
   if negb (k =? 0) then k
   else if (which =? 4) && negb ((leaks c =? 0) && negb (stuck c)) then 99
+  else if (which =? 4) && negb (corr_on c) && negb (notes_complete (impl c)) then 96
   else if (which =? 11) && negb (json_ok c && (json_lines c =? N.of_nat (length (flat_map o_log (impl c))))) then 98
   else 0.
 
